@@ -138,9 +138,9 @@ func c13Provider(name string) restful.CompressorProvider {
 	case "bounded1":
 		return restful.NewBoundedCachedCompressors(1, 1)
 	case "bounded2":
-		return restful.NewBoundedCachedCompressors(2, 2)
+		return restful.NewBoundedCachedCompressors(2, 1) // writers and readers have capacities of their own
 	case "bounded8":
-		return restful.NewBoundedCachedCompressors(8, 8)
+		return restful.NewBoundedCachedCompressors(8, 3)
 	case "mutex":
 		return &mutexProvider{}
 	}
@@ -731,7 +731,7 @@ func secondClose(ctx *core.Ctx, ci int, provName, coding string) {
 func c13(ctx *core.Ctx) {
 	quietLogs()
 	atomic.StoreInt32(&c13Abort, 0)
-	ctx.Rule("providers {sync.Pool, bounded cache capacity 0/1/2/8, custom mutex free-list} behind an instrumenting provider (ledger + trip-wire + history). (A) direct storms: g in {2,4,8} goroutines acquire, use and close a writer, then release together through a spin barrier. (B) storms through Dispatch/ServeHTTP with in-flight in {1,2,capacity,capacity+1,16,64,100} requests all held inside the handler at once, modes {normal (release barrier inside the compressor flush), failing underlying writer, panicking handler with recovery, gzip request bodies via ReadEntity read in 7-byte slices, broken request bodies, handler hijacking the connection, handlers that write no body (nothing, bare 204, zero-length Write)}; churn: goroutines acquire/use/release (directly and through Dispatch/ServeHTTP) back to back without barriers, so that acquires overlap releases. (C) second Close. Oracle: no object handed out while held, each acquired object released exactly once, no write through a released writer, every response/request body decodes to its own payload, nobody parked forever in Release/Close (goroutine state), per-object acquire/release history linearizable against a mutex (porcupine). Race detector on. Non-trivial = a storm with >= 2 holders; distinct by (kind, provider, holders, entry, mode, coding).")
+	ctx.Rule("providers {sync.Pool, bounded cache with (writers, readers) capacity (0,0)/(1,1)/(2,1)/(8,3), custom mutex free-list} behind an instrumenting provider (ledger + trip-wire + history). (A) direct storms: g in {2,4,8} goroutines acquire, use and close a writer, then release together through a spin barrier. (B) storms through Dispatch/ServeHTTP with in-flight in {1,2,capacity,capacity+1,16,64,100} requests all held inside the handler at once, modes {normal (release barrier inside the compressor flush), failing underlying writer, panicking handler with recovery, gzip request bodies via ReadEntity read in 7-byte slices, broken request bodies, handler hijacking the connection, handlers that write no body (nothing, bare 204, zero-length Write)}; churn: goroutines acquire/use/release (directly and through Dispatch/ServeHTTP) back to back without barriers, so that acquires overlap releases. (C) second Close. Oracle: no object handed out while held, each acquired object released exactly once, no write through a released writer, every response/request body decodes to its own payload, nobody parked forever in Release/Close (goroutine state), per-object acquire/release history linearizable against a mutex (porcupine). Race detector on. Non-trivial = a storm with >= 2 holders; distinct by (kind, provider, holders, entry, mode, coding).")
 	ctx.Assume("the ledger adds after the inner acquire and removes before the inner release: it cannot false-alarm on provider-internal ordering")
 	defer func() {
 		// after an abort goroutines of the unfinished storm may still be serving: the package-wide provider is left alone
